@@ -78,7 +78,16 @@ def rule_println_forced(ctx, crate, rule="R-PRINTLN-FORCED"):
             n += 1
             sl = d.slice_args(c, [1])
             isc, ze = D.cond_param(d, D.force_param(d))
-            ok = sl.has_field("orphan_lines") and D.implied_true(d, c.args[1], c.bb, isc, ze)
+            dep = sl.has_field("orphan_lines")
+            if not dep:
+                # control dependence instead of data dependence: `if orphan_count > 0 { force_draw = true; }`
+                for l_ in sorted(sl.locals):
+                    for df in d.defs().get(l_, ()):
+                        if df["kind"] == "assign" and not df["lhs"]["p"] and df["rv"]["k"] == "use" and is_const(df["rv"]["op"], True):
+                            for sb, t in d.switches():
+                                if any(d.edge_dominates((sb, x), df["bb"]) for x in d.succ(sb)) and d.slice_switch(sb).has_field("orphan_lines"):
+                                    dep = True
+            ok = dep and D.implied_true(d, c.args[1], c.bb, isc, ze)
             ctx.check(ok, rule, "orphans-force", d.name, c.loc(),
                       "pending orphan lines (bar-level println) force the MultiProgress draw",
                       "a draw with pending orphan lines can be rate limited away", cfg)
@@ -253,6 +262,8 @@ def zlc_sites(crate, b):
     refs = b.ref_origins()
     for i, j, s in b.assigns():
         fs = [f[2] for f in place_fields(s["lhs"])]
+        if not fs and s["lhs"]["p"] == ["*"] and any(tp and tp[-1] == ZLC for tl, tp in refs.get(s["lhs"]["l"], ())):
+            fs = [ZLC]          # a store through `&mut self.zombie_lines_count` (closure capture, helper argument)
         if fs and fs[-1] == ZLC:
             sl = b.slice_rv(i, s)
             if sl.has_call(r"std::default::Default::default") and not sl.has_field(ZLC) and not sl.has_call(*D.VL_ADDITIVE):
